@@ -25,7 +25,7 @@ from ..report import Ctx
 from ..selftest import Mutant
 
 PROP = "C10"
-TECHNIQUE = "static analysis: copy()/constructor wiring tables + alias/mutation scan of dicts shared by copies (incl. parameter-mutating callees) + typed sort-key rule + who-writes/who-appends scans + CFG invalidation-after-write rules + name-space rule (original vs renamed parameter / output names) + guard-fact rule for bound parameters in add_mapspec_axis + one-name-space rule for collected parameter/output names + scope-entry filter tracing + replace-not-merge rule in NestedPipeFunc.copy"
+TECHNIQUE = "static analysis: copy()/constructor wiring tables + alias/mutation scan of dicts shared by copies (incl. parameter-mutating callees) + typed sort-key rule + who-writes/who-appends scans + CFG invalidation-after-write rules + name-space rule (original vs renamed parameter / output names) + guard-fact rule for bound parameters in add_mapspec_axis + one-name-space rule for collected parameter/output names + scope-entry filter tracing + replace-not-merge rule in NestedPipeFunc.copy + subclass attribute parity (NestedPipeFunc vs what the package reads from a function) + internal-name result picking and declared output order + pickling back-reference re-registration + root-argument restriction of scoped inputs + registration on every appending path"
 PFM = "pipefunc._pipefunc"
 BASE = "pipefunc._pipeline._base"
 EXPLANATION = (
